@@ -139,6 +139,14 @@ def miscOp (toks : List String) : Option String :=
   | ["fixabbr", off] => do
       let off ← off.toInt?
       some (showCk (Fixed.toAbbr off) Bytes.toHex)
+  | ["fixid", off] => do
+      -- fixed_time_zone(off).name() loads (without data) to an equal zone and maps back to the offset
+      let off ← off.toInt?
+      let name := Fixed.toName off
+      if name.flags.any then some (flagStr name.flags)
+      else some (match Fixed.fromName name.val with
+        | some v => s!"ok {v}"
+        | none => "name-does-not-parse")
   | ["fixfrom", hex] => do
       let b ← Bytes.ofHex hex
       some (match Fixed.fromName b with | some v => toString v | none => "none")
